@@ -705,7 +705,7 @@ fn main() {
     helpers_permutation(&rep);
     helpers_crossover(&rep);
     let mut rng = SplitMix64::new(rep.seed).fork(0xC13_1);
-    let n = rep.tier.pick(3_000, 30_000);
+    let n = rep.tier.pick(3_000, 3_000_000);
     real_components(&rep, &mut rng, n);
     de_components(&rep, &mut rng, n);
     bit_components(&rep, &mut rng, n);
